@@ -10,8 +10,12 @@ pub fn run(ctx: &Ctx, replay_file: Option<String>) -> ! {
     let (kfull, kmax) = ctx.tier.pick((2, 3), (3, 4));
     let (acc0, mut bound) = explore_programs::<Pair>("C02", kfull, kmax, 2);
     let (acc1, bound1) = explore_magnitudes::<Pair>("C02", ctx.tier.pick(2, 3));
-    let acc = acc0.merge(acc1);
+    let (acc2, bound2) = crate::largeops::explore_large("C02", true);
+    let (acc3, bound3) = explore_deep::<Pair>("C02");
+    let acc = acc0.merge(acc1).merge(acc2).merge(acc3);
+    bound["deep_formulas"] = bound3;
     bound["second_value_table_magnitudes"] = bound1;
+    bound["many_names"] = bound2;
     let _ = json!(null);
     let meta = Meta::exploration(
         "same program space as C01, executed on Dual2 and, in lock step, on Dual: value vs plain f64; gradient and \
@@ -19,6 +23,8 @@ pub fn run(ctx: &Ctx, replay_file: Option<String>) -> ! {
          RefDual reference (true second partials); Hessian symmetric; value and gradient equal to the first-order \
          run of the same program; Dual::from(result) (owned and borrowed) keeps value, names and gradient exactly. \
          Reference rules validated by first and second central differences of the plain program for <= 2 operators. \
+         Deep formulas: nine chains of 10 .. 60 operators (Horner scheme, continued fraction, exp/log tower, cdf / inverse-cdf ping-pong, power chain, 24-term sum of products, Black-Scholes price, balanced tree of 32 leaves, sign chain), every intermediate stage judged as a program of its own, on both leaf tables. Many-names pass: each of the 10 unary functions on a Dual2 carrying 7 .. 130 names (14 sizes, three stored orders, banded Hessian with \
+         a dense first row): Hessian = f'(x) H + f''(x) g g^T by name, bitwise symmetric. \
          Non-trivial: >= 2 operators and a non-zero CROSS second partial between two different names.",
         bound,
     )
